@@ -2,7 +2,7 @@
 //@properties C06
 //@source store src/graph/store.rs
 //@source types src/graph/types.rs
-//@rules D2 R2
+//@rules D2 R2 R15
 #![feature(allocator_api)]
 #![allow(unused_imports, unused_variables, unused_mut, dead_code)]
 use vstd::prelude::*;
@@ -66,6 +66,7 @@ pub proof fn axiom_key_models()
 {}
 //@include common/hashmap_get_mut.rs
 //@include common/filter_by.rs
+//@include common/iter_wrappers.rs
 /// `v.get_mut(i)` on a Vec (A-STD; vstd has no final-value specification for slice::get_mut; wrapper body is the original
 /// expression): a mutable reference to element i if it exists; nothing else changes
 #[verifier::external_body]
@@ -441,6 +442,28 @@ impl GraphStore {
             }
         }
     }
+    /// retain keeps a sorted list sorted (a subsequence of a sorted sequence)
+    pub proof fn lemma_retained_stays_sorted(s: Seq<Entry>, keep: Seq<bool>)
+        requires keep.len() == s.len(), sorted_by_nbr(s)
+        ensures sorted_by_nbr(filter_by(s, keep)),
+            forall|k: int| 0 <= k < filter_by(s, keep).len() ==> exists|j: int| 0 <= j < s.len() && s[j] == #[trigger] filter_by(s, keep)[k],
+            filter_by(s, keep).len() > 0 ==> s.len() > 0 && filter_by(s, keep).last().0.0 <= s.last().0.0,
+        decreases s.len()
+    {
+        if s.len() > 0 {
+            Self::lemma_retained_stays_sorted(s.drop_last(), keep.drop_last());
+            let rest = filter_by(s.drop_last(), keep.drop_last());
+            if rest.len() > 0 { assert(s.drop_last().last() == s[s.len() - 2]); }
+            assert forall|k: int| 0 <= k < filter_by(s, keep).len() implies exists|j: int| 0 <= j < s.len() && s[j] == #[trigger] filter_by(s, keep)[k] by {
+                if k < rest.len() {
+                    let j = choose|j: int| 0 <= j < s.drop_last().len() && s.drop_last()[j] == rest[k];
+                    assert(s[j] == rest[k]);
+                } else {
+                    assert(s[s.len() - 1] == filter_by(s, keep)[k]);
+                }
+            }
+        }
+    }
     // ---- callees of delete_edge outside the adjacency: stubs (D4) ----
     #[verifier::external_body] pub fn invalidate_statistics_cache(&self) { unimplemented!() }
     #[verifier::external_body] pub fn invalidate_hierarchies_for_edge_type(&self, edge_type: &EdgeType) { unimplemented!() }
@@ -473,6 +496,9 @@ impl GraphStore {
         r is Ok ==> final(self).no_dangling(),                                                              //#no_entry_dangles
         r is Ok ==> forall|i: int, n: NodeId| (#[trigger] buf(final(self).outgoing@, i).to_multiset().count((n, id))) == 0,   //#gone_from_every_outgoing_buffer
         r is Ok ==> forall|i: int, n: NodeId| (#[trigger] buf(final(self).incoming@, i).to_multiset().count((n, id))) == 0,   //#gone_from_every_incoming_buffer
+        forall|i: int| 0 <= i < old(self).outgoing@.len() && sorted_by_nbr(old(self).outgoing@[i]@) ==> sorted_by_nbr(#[trigger] final(self).outgoing@[i]@),   //#sorted_outgoing_buffers_stay_sorted
+        forall|i: int| 0 <= i < old(self).incoming@.len() && sorted_by_nbr(old(self).incoming@[i]@) ==> sorted_by_nbr(#[trigger] final(self).incoming@[i]@),   //#sorted_incoming_buffers_stay_sorted
+        final(self).outgoing@.len() == old(self).outgoing@.len() && final(self).incoming@.len() == old(self).incoming@.len(),   //#same_slots
         r is Err ==> final(self).outgoing@ == old(self).outgoing@ && final(self).incoming@ == old(self).incoming@
             && final(self).edge_endpoints@ == old(self).edge_endpoints@,                                   //#refused_changes_nothing
         final(self).frozen_outgoing == old(self).frozen_outgoing && final(self).frozen_incoming == old(self).frozen_incoming,   //#frozen_tier_untouched
@@ -496,6 +522,7 @@ impl GraphStore {
                         let keep = choose|keep: Seq<bool>| keep.len() == s0.len()
                             && (forall|k: int| 0 <= k < keep.len() ==> #[trigger] keep[k] == (s0[k].1 != id)) && self.outgoing@[i]@ == filter_by(s0, keep);
                         Self::lemma_retained_has_no_id(s0, keep, id, n);
+                        if sorted_by_nbr(s0) { Self::lemma_retained_stays_sorted(s0, keep); }
                         assert(self.outgoing@[i]@ == filter_by(s0, keep));
                         assert(buf(self.outgoing@, i).to_multiset().count((n, id)) == 0);
                     } else {
@@ -515,6 +542,22 @@ impl GraphStore {
                     assert(buf(self.outgoing@, i) =~= Seq::<Entry>::empty());
                 }
             }
+            assert forall|i: int| 0 <= i < old(self).outgoing@.len() && sorted_by_nbr(old(self).outgoing@[i]@) implies sorted_by_nbr(#[trigger] self.outgoing@[i]@) by {
+                if i == src {
+                    let s0 = old(self).outgoing@[i]@;
+                    let keep = choose|keep: Seq<bool>| keep.len() == s0.len()
+                        && (forall|k: int| 0 <= k < keep.len() ==> #[trigger] keep[k] == (s0[k].1 != id)) && self.outgoing@[i]@ == filter_by(s0, keep);
+                    Self::lemma_retained_stays_sorted(s0, keep);
+                }
+            }
+            assert forall|i: int| 0 <= i < old(self).incoming@.len() && sorted_by_nbr(old(self).incoming@[i]@) implies sorted_by_nbr(#[trigger] self.incoming@[i]@) by {
+                if i == tgt {
+                    let s0 = old(self).incoming@[i]@;
+                    let keep = choose|keep: Seq<bool>| keep.len() == s0.len()
+                        && (forall|k: int| 0 <= k < keep.len() ==> #[trigger] keep[k] == (s0[k].1 != id)) && self.incoming@[i]@ == filter_by(s0, keep);
+                    Self::lemma_retained_stays_sorted(s0, keep);
+                }
+            }
             assert forall|i: int, n: NodeId| (#[trigger] buf(self.incoming@, i).to_multiset().count((n, id))) == 0 by {
                 if 0 <= i < self.incoming@.len() {
                     if i == tgt {
@@ -522,6 +565,7 @@ impl GraphStore {
                         let keep = choose|keep: Seq<bool>| keep.len() == s0.len()
                             && (forall|k: int| 0 <= k < keep.len() ==> #[trigger] keep[k] == (s0[k].1 != id)) && self.incoming@[i]@ == filter_by(s0, keep);
                         Self::lemma_retained_has_no_id(s0, keep, id, n);
+                        if sorted_by_nbr(s0) { Self::lemma_retained_stays_sorted(s0, keep); }
                         assert(self.incoming@[i]@ == filter_by(s0, keep));
                     } else {
                         assert(buf(self.incoming@, i) == buf(old(self).incoming@, i));
